@@ -282,6 +282,7 @@ func (g *FuncGen) pureUnknown(name string, cc *ssa.CallCommon, res ssa.Value) *V
 		}
 	}
 	v := g.freshFor(res)
+	g.resultNotOwn(v)
 	switch name {
 	case "errors.New", "fmt.Errorf":
 		g.c.assert(implies(g.bcond[g.curBlock], not(eq(fmt.Sprintf("(i_typ %s)", v.T), "0"))))
@@ -1207,7 +1208,37 @@ func (g *FuncGen) havocCall(name string, cc *ssa.CallCommon, args []Val, res ssa
 		return &Val{Tup: []Val{}}
 	}
 	v := g.freshFor(res)
+	g.resultNotOwn(v)
 	return &v
+}
+
+// resultNotOwn: what a call without a contract returns cannot be (part of) one of this function's own
+// non-escaping allocations - no callee was ever handed a reference to them.
+func (g *FuncGen) resultNotOwn(v Val) {
+	if len(g.ownRefs) == 0 {
+		return
+	}
+	if v.Tup != nil {
+		for _, e := range v.Tup {
+			g.resultNotOwn(e)
+		}
+		return
+	}
+	if v.GT == nil {
+		return
+	}
+	var ref string
+	switch types.Unalias(v.GT).Underlying().(type) {
+	case *types.Pointer, *types.Map:
+		ref = v.T
+	case *types.Slice:
+		ref = fmt.Sprintf("(s_arr %s)", v.T)
+	default:
+		return
+	}
+	for _, r := range g.ownRefs {
+		g.c.assert(implies(g.bcond[g.curBlock], not(eq(g.c.root(ref), r))))
+	}
 }
 
 // ---------- frame check for the function under verification ----------
